@@ -49,7 +49,7 @@ def lit(v):
     if isinstance(v, int):
         return str(v) if v >= 0 else f"(0 - {-v})"
     if isinstance(v, str):
-        return '"' + v.replace("\\", "\\\\").replace('"', '\\"').replace("\n", "\\n").replace("$", "\\$") + '"'
+        return '"' + v.replace("\\", "\\\\").replace('"', '\\"').replace("\n", "\\n").replace("\r", "\\r").replace("$", "\\$") + '"'
     if isinstance(v, list):
         return "[" + ", ".join(lit(x) for x in v) + "]"
     return "{" + ", ".join(lit(k) + ": " + lit(x) for k, x in v.items()) + "}"
@@ -101,7 +101,7 @@ class Builder:
 
 
 def values(depth, rng, limit):
-    atoms = [None, True, 0, -7, "", "a", "two\nlines", "é"]
+    atoms = [None, True, 0, -7, "", "a", "two\nlines", "é", "end\n", "a\r\nb", "\n", "x\n\ny"]
     out = list(atoms)
     prev = list(atoms)
     for d in range(depth):
@@ -133,6 +133,35 @@ def value_scripts(ctx):
         exp = py_print(v) + "\n"
         cases.append((v, src, exp * 3))
     return cases
+
+
+def shared_scripts(ctx):
+    """the same container reached twice (or more) by reference within one print: a DAG prints like the tree it unfolds to"""
+    cases = []
+    subs = [[1, 2], {"k": 1}, {"k": [1], "j": "two\nlines"}, [], {}, [[7]], {"a": {"b": {}}}]
+    for sub in subs:
+        for shape in ("[s, s]", "{\"a\": s, \"b\": s}", "[[s], s, {\"z\": s}]", "{\"a\": [s, s], \"b\": {\"c\": s}}", "[s, [s, [s]]]"):
+            def build(x):
+                return eval(shape.replace("s", "x"), {"x": x})        # Python structure with the same sharing
+            v = build(sub)
+            src = f"s := {lit(sub)}\nt := {shape}\nprint(t)\nprint(t)\nu := {shape.replace('s', lit(sub))}\nprint(u)\nprint(t == u)\n"
+            cases.append((v, src, (py_print(v) + "\n") * 3 + "true\n"))
+    return cases
+
+
+ERROR_ORDER_SCRIPTS = [
+    # several candidates for "the" error: which one is reported (and where) must not depend on the run
+    "fn area(width, height, width, height) {\n    return 1\n}\n",
+    "fn f(a, b, c, a, b, c) {\n    return 1\n}\n",
+    "fn g([p, q], {p, q}, p, q) {\n    return 1\n}\n",
+    "[a, b, a, b] := [1, 2, 3, 4]\n",
+    "{x, y, z} := {}\n",
+    "{\"k1\": m, \"k2\": m, \"k3\": n, \"k4\": n} := {\"k1\": 1, \"k2\": 2, \"k3\": 3, \"k4\": 4}\n",
+    "o := {\"b\": 1, \"a\": 2, \"c\": 3}\n{..rest} := o\nprint(rest)\n{b, ..others} := o\nprint(others)\n",
+    "print({\"z\": 1, \"y\": zz1, \"x\": zz2})\n",
+    "fn h(a, b) {\n    return a\n}\nprint(h(u1, u2))\n",
+    "o := {}\nfor [i, k] in [\"q\", \"w\", \"e\", \"r\", \"t\", \"y\"] {\n    o[k] = i\n}\nprint(o)\nfor [k, v] in o {\n    print(k)\n}\n",
+]
 
 
 # ------------------------------------------------------------------ (ii) determinism under a varied environment
@@ -188,7 +217,7 @@ def oracle_one(ctx, src, r):
 def run(ctx, model_ok):
     import concurrent.futures as cf
     # (i)
-    cases = value_scripts(ctx)
+    cases = value_scripts(ctx) + shared_scripts(ctx)
     srcs = [c[1] for c in cases]
     impl, dis = tie.run(ctx, srcs, "values", model_ok)
     bad = []
@@ -197,12 +226,14 @@ def run(ctx, model_ok):
         ctx.dist("value:" + type(v).__name__)
         if r["status"] != "0" or r["stdout"] != exp:
             bad.append((src, exp, r))
+    for src, exp, r in bad[:0]:
+        pass
     bad.sort(key=lambda b: len(b[0]))
     for src, exp, r in bad[:3]:
         c = core.run_cli(src)
         if c["status"] != "0" or c["stdout"] != exp:
             ctx.violation("printing is not the canonical rendering / differs between construction histories", src,
-                          {"expected_three_times": exp[: len(exp) // 3], "cli": c, "failing_values": len(bad)})
+                          {"expected_stdout": exp, "cli": c, "failing_values": len(bad)})
     tie.report_disagreements(ctx, [d for d in dis if d[0] not in {b[0] for b in bad}], "values")
     k = len(cases) * 3 // 4
     ctx.sample({"stream": "values", "src": cases[k][1][:500], "impl_stdout": impl[k]["stdout"][:300]})
@@ -210,6 +241,7 @@ def run(ctx, model_ok):
     nprog = 5000 if ctx.tier == "thorough" else 150
     reps = 8 if ctx.tier == "thorough" else 4
     ps = progs.generate(ctx.rng, nprog, fail_rate=0.4)
+    ps = ERROR_ORDER_SCRIPTS * 3 + ps        # repeated: hash seeds differ per process, more runs make an order flip likely to show
     jobs = [(i, k) for i in range(len(ps)) for k in range(reps)]
     with cf.ThreadPoolExecutor(max_workers=core.NPROC) as ex:
         results = list(ex.map(lambda ik: run_variant(ps[ik[0]], ik[1], None), jobs))
